@@ -54,7 +54,7 @@ def all_cfgs(rng, segctrl=False):
             for idw in WIDTHS:
                 for seqw in WIDTHS:
                     for mode in (0, 1):
-                        yield mk_cfg(rng, crc, large, idw, seqw, mode, rng.getrandbits(1) if segctrl else 0)
+                        yield mk_cfg(rng, crc, large, idw, seqw, mode, rng.getrandbits(1))
 
 
 def mk_cfg(rng, crc, large, idw, seqw, mode=0, segctrl=0):
@@ -66,8 +66,10 @@ _LAST_IDS = None
 
 
 def rand_cfg(rng, segctrl=False, **fixed):
+    # the segmentation-control bit is packed for every PDU kind (it means something for File Data PDUs only, but a transaction
+    # uses one configuration for all its PDUs), so every kind sees both values; `segctrl` is kept for the callers' readability
     c = mk_cfg(rng, rng.getrandbits(1), rng.getrandbits(1), rng.choice(WIDTHS), rng.choice(WIDTHS), rng.getrandbits(1),
-               rng.getrandbits(1) if segctrl else 0)
+               rng.getrandbits(1))
     if rng.random() < 0.06:
         # coincidences between fields: equal source and destination ids, sequence number equal to an id (where the widths allow)
         c["dst"] = c["src"]
